@@ -4,7 +4,7 @@
    Everything holds for ANY value type V, converter description K, converter cvt and value equality veqb. *)
 From Coq Require Import Permutation.
 From SPV Require Import Base.Str Model.Namespace Model.LeafSpec Model.ArgparseM Model.ArgparseMSpec
-     Proofs.ArgparseMProofs.
+     Proofs.ArgparseMProofs Proofs.ArgparsePipeline.
 
 (* I1: empty argv yields the defaults, string defaults passed through the converter (not the choices);
    a missing required option is an error.  spec_empty is written per action, without the model's loops. *)
@@ -207,6 +207,55 @@ Theorem ARGP_bridge_group_step :
     end.
 Proof. exact bridge_group_step. Qed.
 Print Assumptions ARGP_bridge_group_step.
+
+(* PIPELINE: the per-field abstraction of CorrDefs/CorrC02.v (field_result / model_outcome) is a theorem about the
+   token-level model.  fs: store fields (dest, Leaf.ty, default) with pairwise distinct dests; field_ok f: Leaf.arg_options
+   gives a store action (no bool flag) whose converter is position-free (no_seq: no heterogeneous fixed tuple);
+   cli_type is NOT needed.  acts_of_fields: one action `--dest`, nargs/converter/choices from Leaf.arg_options, not
+   required, default as given (never an unconverted string).  Leaf.nargs has no `+`, so nargs `+` does not occur.
+   gs: well-formed groups (group_ok: exact option, admissible count, tokens_plain).  leaf_outcome is written in Leaf
+   vocabulary only: the first Err of Leaf.take_values over the groups in argv order, else for each field take_values
+   of its LAST group, or its default when it is not mentioned.  For every str2bool / enum_miss_cls. *)
+Theorem ARGP_leaf_pipeline : forall str2bool enum_miss_cls ab fs gs,
+  NoDup (map lf_dest fs) ->
+  forallb field_ok fs = true ->
+  forallb (group_ok ab (acts_of_fields fs)) gs = true ->
+  parse_args (lcvt str2bool enum_miss_cls) value_eqb ab (acts_of_fields fs) (flatten gs)
+  = leaf_outcome str2bool enum_miss_cls fs gs.
+Proof. exact leaf_pipeline. Qed.
+Print Assumptions ARGP_leaf_pipeline.
+
+Theorem ARGP_leaf_pipeline_field : forall str2bool enum_miss_cls ab fs gs n i f,
+  NoDup (map lf_dest fs) -> forallb field_ok fs = true ->
+  forallb (group_ok ab (acts_of_fields fs)) gs = true ->
+  parse_args (lcvt str2bool enum_miss_cls) value_eqb ab (acts_of_fields fs) (flatten gs) = Ok n ->
+  nth_error fs i = Some f ->
+  exists x, leaf_field_result str2bool enum_miss_cls i f gs = Ok x /\ lookup (lf_dest f) n = Some (st_of x).
+Proof. exact leaf_pipeline_field. Qed.
+Print Assumptions ARGP_leaf_pipeline_field.
+
+(* non-vacuity of the pipeline theorem: int, List[str], Optional[float]; a repeated option and negative numbers *)
+Definition pl_fields : list lfield :=
+  [ mklfield "lr" TInt (ROne (VInt 3)); mklfield "names" (TList TStr) (RMany []); mklfield "temp" (TOpt TFloat) RNone ].
+Definition pl_groups : list group :=
+  [ mkgroup 1 "--names" ["a"; "b c"]; mkgroup 2 "--temp" ["-2.5"]; mkgroup 0 "--lr" ["-5"]; mkgroup 1 "--names" ["z"] ].
+Example ARGP_leaf_pipeline_nonvacuous :
+  flatten pl_groups = ["--names"; "a"; "b c"; "--temp"; "-2.5"; "--lr"; "-5"; "--names"; "z"]
+  /\ NoDup (map lf_dest pl_fields)
+  /\ forallb field_ok pl_fields = true
+  /\ forallb (fun f => cli_type (lf_ty f)) pl_fields = true
+  /\ forallb (group_ok true (acts_of_fields pl_fields)) pl_groups = true
+  /\ leaf_outcome (fun _ => None) "KeyError" pl_fields pl_groups =
+       Ok [("lr", SOne (VInt (-5))); ("names", SMany [VStr "z"]); ("temp", SOne (VFlt true 2 "5"))]
+  /\ parse_args (lcvt (fun _ => None) "KeyError") value_eqb true (acts_of_fields pl_fields) (flatten pl_groups) =
+       Ok [("lr", SOne (VInt (-5))); ("names", SMany [VStr "z"]); ("temp", SOne (VFlt true 2 "5"))]
+  /\ leaf_outcome (fun _ => None) "KeyError" pl_fields [mkgroup 0 "--lr" ["x"]; mkgroup 2 "--temp" ["1"]] = Err (Exit 2)
+  /\ leaf_outcome (fun _ => None) "KeyError" pl_fields [] =
+       Ok [("lr", SOne (VInt 3)); ("names", SMany []); ("temp", SNone)].
+Proof.
+  repeat split; try (vm_compute; reflexivity).
+  apply str_nodupb_NoDup. vm_compute. reflexivity.
+Qed.
 
 (* non-vacuity: a realistic command line (repeated option, negative number, blank-containing token, list and
    fixed-arity options) satisfies every hypothesis, and the model answers what argparse answers on it *)
